@@ -536,6 +536,8 @@ class Recorder:
                         i = pos[-1]
                     elif rec.sampler == "greedy":
                         i = int(torch.argmax(input).item())
+                    elif rec.sampler.startswith("nth:"):
+                        i = pos[int(rec.sampler[4:]) % len(pos)]  # the k-th outcome that has positive probability
                     else:
                         i = rec.srng.choice(pos)
                     r = torch.tensor([i], dtype=r.dtype)
